@@ -38,3 +38,10 @@ Proof. exact size_call16. Qed.
 Theorem C03_size_jmp16_refuted : exists rel, zlen (gen_jmp M16 rel) <> estimate_jump "JMP" M16.
 Proof. exact size_jmp16_refuted. Qed.
 Print Assumptions C03_size_call16.
+
+Theorem C03_size_int : forall E m st dol len (s : p1state) v, 0 <= v <= 255 -> loc s + 2 < 2 ^ 31 -> - 2 ^ 31 <= loc s ->
+  exists bs, gen_ocode E m st dol len (OInt (Some v)) = Bytes bs
+             /\ ocodes (do_int s [ENum v]) = OInt (Some v) :: ocodes s
+             /\ loc (do_int s [ENum v]) = loc s + zlen bs.
+Proof. exact size_int. Qed.
+Print Assumptions C03_size_int.
